@@ -4,6 +4,7 @@ import Rbdl.GeomDriver
 import Rbdl.BalDriver
 import Rbdl.IterDriver
 import Rbdl.LuaDriver
+import Rbdl.EnbDriver
 /-
   Line-protocol driver of the executable model (`rbdl_model`): reads the same case file as the
   C++ harness (`harness/driver.cc`) from stdin, executes every operation over exact rationals
@@ -732,6 +733,9 @@ def doCall (d : DS) (t : Toks) : DS × String :=
     if u ≠ 0 then also o d "PE.spec" (showRat (Spec.potentialEnergy d.specModel d.specState)) else o
   | "FPE" | "FPEG" | "FPED" =>   -- balance addon (C12): lean/Rbdl/BalDriver.lean
     let (w, ls) := BalDriver.run parseRat cosSinApprox m d.w d.st d.qd d.specModel d.specState d.impl name t.l
+    ls.tail.foldl (fun r p => also r d p.1 p.2) (out { d with w := w } name (ls.headD ("", "")).2)
+  | "ENB" =>   -- energy balance (C12): lean/Rbdl/EnbDriver.lean
+    let (w, ls) := EnbDriver.run parseRat m d.w d.st d.qd d.tau d.fext d.specModel d.specState d.impl
     ls.tail.foldl (fun r p => also r d p.1 p.2) (out { d with w := w } name (ls.headD ("", "")).2)
   | _ => out d name "bad-call"
 
